@@ -14,6 +14,13 @@ def programs(ctx, n):
         # larger programs: many actors created in one round (any pointer-ordered container would change the order)
         big = i % 4 == 0
         progs.append(K.gen_sync_prog(ctx.rng, focus, max_actors=8 if big else 5, max_ops=10 if big else 7, illformed=0.01))
+    # other families: communications, timed waits, lifecycle, suspension, restarts, and actors dying with several activities in
+    # flight (the order in which they are cancelled wakes the peers up)
+    others = [lambda r: K.gen_dying_prog(r), lambda r: K.gen_comm_prog(r, max_actors=5, max_ops=6), lambda r: K.gen_dying_prog(r),
+              lambda r: K.gen_timed_prog(r, max_actors=4, max_ops=5), lambda r: K.gen_life_prog(r, max_actors=5, max_ops=6),
+              lambda r: K.gen_susp_prog(r), lambda r: K.gen_restart_prog(r)]
+    for i in range(max(7, n // 2)):
+        progs.append(others[i % len(others)](ctx.rng))
     return progs
 
 
